@@ -460,7 +460,11 @@ func (c *Cache) readDump(r io.Reader) (int, error) {
 			storedTime := time.Unix(entry.GetMsgStoredTime(), 0)
 			resp := new(dns.Msg)
 			if err := resp.Unpack(entry.GetMsg()); err != nil {
-				return fmt.Errorf("failed to decode dns msg, %w", err)
+				// dns.Msg.Pack can emit a message that Unpack refuses (e.g.
+				// for a record that was received with cut-short rdata).
+				// One such entry must not cost all the others.
+				c.logger.Warn("failed to decode cached msg, entry skipped", zap.Error(err))
+				continue
 			}
 
 			i := &item{
